@@ -24,7 +24,8 @@ def ev_parse(eid, text, want=None, via=None):
             t = OFXTree()
             root = t.parse(io.BytesIO(str(make_header(via)).encode("ascii") + text.encode("utf8")))
         if root is None:
-            out = {"ok": False, "tree": [], "exc": "returned None"}
+            # no error and no tree: the caller was told nothing - reported as an (empty) acceptance, never as a refusal
+            out = {"ok": True, "tree": [], "exc": "returned None"}
         else:
             out = {"ok": True, "tree": project_tree(root), "exc": ""}
     except Exception as e:
